@@ -106,6 +106,9 @@ type loopRun struct {
 	fresh    bool   // loop declared "writes fresh"
 	invRoots map[string][]Term
 	li       *loopInfo
+	assigns  map[string][]designator // loop declared "assigns ...": designators per heap
+	hasAsg   bool
+	topPre   Term
 }
 
 func (ex *Exec) where(pos token.Pos) string { return ex.prog.position(pos) }
@@ -512,6 +515,20 @@ func (ex *Exec) enterLoop(fr *Frame, li *loopInfo, states []*State, conds []Term
 	topPre := pre.top
 	invRoots := map[string][]Term{}
 	st.top = newTop
+	loopDes := map[string][]designator{}
+	if len(ls.Assigns) > 0 {
+		envPre := ex.loopEnv(fr, li, pre)
+		for _, a := range ls.Assigns {
+			for _, part := range splitTop(a, ',') {
+				for _, d := range ex.evalDesignator(strings.TrimSpace(part), envPre) {
+					loopDes[d.heap] = append(loopDes[d.heap], d)
+					if ex.track != nil {
+						ex.noteWrite(d.heap, ex.vc.fresh("anyroot", SInt))
+					}
+				}
+			}
+		}
+	}
 	if eff.all {
 		ex.bump(st, nil, nil)
 	} else if len(eff.heaps) > 0 {
@@ -527,6 +544,9 @@ func (ex *Exec) enterLoop(fr *Frame, li *loopInfo, states []*State, conds []Term
 					continue // allocated inside the loop: >= topPre
 				}
 				if maxSymNum(r.S) > watermark {
+					if len(ls.Assigns) > 0 {
+						continue // checked at every write: inside the declared loop frame or allocated by the loop
+					}
 					if ls.WritesFresh {
 						// declared (and checked at every write): such roots were allocated after function entry
 						limit = fr.entry.top
@@ -549,11 +569,17 @@ func (ex *Exec) enterLoop(fr *Frame, li *loopInfo, states []*State, conds []Term
 					guard = append(guard, Neq(rv, r))
 				}
 			}
+			for _, d := range loopDes[name] {
+				if d.all {
+					return True
+				}
+				guard = append(guard, d.outside(rv))
+			}
 			return Forall([]Bound{{"r?", SInt}}, Implies(And(guard...), Eq(Select(nh, rv), Select(old, rv))))
 		})
 	}
 	// 4. assume the invariants in the havocked state
-	lr := &loopRun{st: st, fresh: ls.WritesFresh, invRoots: invRoots, li: li}
+	lr := &loopRun{st: st, fresh: ls.WritesFresh, invRoots: invRoots, li: li, assigns: loopDes, hasAsg: len(ls.Assigns) > 0, topPre: topPre}
 	fr.loopHdrSt[h] = lr
 	for _, inv := range ls.Invariants {
 		env := ex.loopEnv(fr, li, st)
@@ -674,25 +700,80 @@ func (ex *Exec) noteWrite(name string, root Term) {
 	ex.checkFreshWrite(name, root)
 }
 
-// checkFreshWrite: inside a loop declared "writes fresh", every heap write must target an object
-// allocated after function entry or one of the loop-invariant roots the frame already excludes.
+// checkFreshWrite: inside a loop declared "writes fresh" (or with a declared loop frame "assigns ..."), every heap
+// write must target an object the assumed loop frame leaves open: one allocated after function entry (writes fresh) /
+// by the loop (assigns), a loop-invariant root the frame already excludes, or an object of the declared loop frame.
+// The loops of every enclosing activation (inlined callees) are checked as well.
 func (ex *Exec) checkFreshWrite(name string, root Term) {
-	fr := ex.curFrame
-	if fr == nil || fr.curBlock == nil {
+	ex.checkLoopFrames(name, designator{heap: name, root: root})
+}
+
+func (ex *Exec) checkLoopFrames(name string, w designator) {
+	inner := ex.curFrame
+	if inner == nil || inner.curBlock == nil {
 		return
 	}
-	for h, lr := range fr.loopHdrSt {
-		if lr == nil || !lr.fresh || lr.li == nil || !lr.li.body[fr.curBlock.Index] || h == nil {
+	reach, ok := inner.blockReach[inner.curBlock.Index]
+	if !ok {
+		return
+	}
+	for fr := inner; fr != nil; fr = fr.parent {
+		if fr.curBlock == nil {
 			continue
 		}
-		alts := []Term{Ge(root, fr.entry.top)}
-		for _, r := range lr.invRoots[name] {
-			alts = append(alts, Eq(root, r))
+		var hdrs []*ssa.BasicBlock
+		for h := range fr.loopHdrSt {
+			if h != nil {
+				hdrs = append(hdrs, h)
+			}
 		}
-		reach := fr.blockReach[fr.curBlock.Index]
-		o := ex.vc.oblige("frame", fr.name(fmt.Sprintf("loop%d.writes-fresh:%s", lr.li.ord, heapDisplay(name))), reach, Or(alts...), "")
-		o.Descr = "heap write inside a loop declared 'writes fresh' targets an object allocated after function entry"
-		ex.vc.assume(Implies(reach, Or(alts...)))
+		sort.Slice(hdrs, func(i, j int) bool { return hdrs[i].Index < hdrs[j].Index })
+		for _, h := range hdrs {
+			lr := fr.loopHdrSt[h]
+			if lr == nil || !(lr.fresh || lr.hasAsg) || lr.li == nil || !lr.li.body[fr.curBlock.Index] {
+				continue
+			}
+			allowed := func(root Term) Term {
+				var alts []Term
+				if lr.hasAsg {
+					alts = append(alts, Ge(root, lr.topPre))
+				} else {
+					alts = append(alts, Ge(root, fr.entry.top))
+				}
+				for _, r := range lr.invRoots[name] {
+					alts = append(alts, Eq(root, r))
+				}
+				for _, d := range lr.assigns[name] {
+					if d.all {
+						return True
+					}
+					alts = append(alts, d.inside(root))
+				}
+				return Or(alts...)
+			}
+			kind := "writes-fresh"
+			descr := "heap write inside a loop declared 'writes fresh' targets an object allocated after function entry"
+			if lr.hasAsg {
+				kind = "assigns"
+				descr = "heap write inside a loop targets an object of the declared loop frame (or one the loop allocated)"
+			}
+			var goal Term
+			switch {
+			case w.all:
+				goal = allowed(Var("r?", SInt))
+				if goal.S != True.S {
+					goal = False
+				}
+			case w.member != nil:
+				rv := Var("r?", SInt)
+				goal = Forall([]Bound{{"r?", SInt}}, Implies(w.member(rv), allowed(rv)))
+			default:
+				goal = allowed(w.root)
+			}
+			o := ex.vc.oblige("frame", fr.name(fmt.Sprintf("loop%d.%s:%s", lr.li.ord, kind, heapDisplay(name))), reach, goal, "")
+			o.Descr = descr
+			ex.vc.assume(Implies(reach, goal))
+		}
 	}
 }
 
@@ -1170,7 +1251,11 @@ func (ex *Exec) goStmt(fr *Frame, c *ssa.CallCommon, st *State, reach Term, pos 
 			for _, d := range ex.evalDesignator(part, env) {
 				names[d.heap] = true
 				byHeap[d.heap] = append(byHeap[d.heap], d)
-				ex.noteWrite(d.heap, d.root)
+				if d.all || d.member != nil {
+					ex.noteWrite(d.heap, ex.vc.fresh("anyroot", SInt))
+				} else {
+					ex.noteWrite(d.heap, d.root)
+				}
 			}
 		}
 	}
@@ -1185,7 +1270,7 @@ func (ex *Exec) goStmt(fr *Frame, c *ssa.CallCommon, st *State, reach Term, pos 
 			if d.all {
 				return True
 			}
-			guard = append(guard, Neq(rv, d.root))
+			guard = append(guard, d.outside(rv))
 		}
 		return Forall([]Bound{{"r?", SInt}}, Implies(And(guard...), Eq(Select(nh, rv), Select(old, rv))))
 	})
